@@ -151,6 +151,11 @@ func runCommitWatched(f func() error) wdOutcome {
 		case r := <-done:
 			return wdOutcome{err: r.err, pan: r.pan}
 		case <-timer.C:
+			select { // after a long stall of the whole process both channels may be ready: the result wins
+			case r := <-done:
+				return wdOutcome{err: r.err, pan: r.pan}
+			default:
+			}
 			return hit(fmt.Sprintf("no return within %s", commitWatchdogTimeout))
 		case <-tick.C:
 			sig, parked := wdPicture()
